@@ -397,6 +397,53 @@ def _t_comp_to_loop(srcs):
                 n.body = fix(n.body, outside)
 
 
+def _t_logic_spellings(srcs):
+    """boolean re-spellings in `if` / `while` / conditional-expression tests: `a and b` -> `not (not a or not b)`, `a or b` -> `not (not a and not b)` (De Morgan; the
+    short-circuit order is kept), `x is not None` -> `not x is None`, `x not in y` -> `not x in y`, `x != y` -> `not x == y` for names and literals"""
+    import ast
+
+    def neg(e):
+        if isinstance(e, ast.UnaryOp) and isinstance(e.op, ast.Not):
+            return e.operand
+        return ast.UnaryOp(ast.Not(), e)
+
+    def respell(test):
+        if isinstance(test, ast.BoolOp) and len(test.values) == 2:
+            other = ast.Or() if isinstance(test.op, ast.And) else ast.And()
+            return ast.UnaryOp(ast.Not(), ast.BoolOp(op=other, values=[neg(respell_cmp(v)) for v in test.values]))
+        return respell_cmp(test)
+
+    def respell_cmp(test):
+        if isinstance(test, ast.Compare) and len(test.ops) == 1:
+            op = test.ops[0]
+            simple = all(isinstance(x, (ast.Name, ast.Constant)) for x in [test.left] + test.comparators)
+            if isinstance(op, ast.IsNot):
+                return ast.UnaryOp(ast.Not(), ast.Compare(left=test.left, ops=[ast.Is()], comparators=test.comparators))
+            if isinstance(op, ast.NotIn):
+                return ast.UnaryOp(ast.Not(), ast.Compare(left=test.left, ops=[ast.In()], comparators=test.comparators))
+            if isinstance(op, ast.NotEq) and simple:
+                return ast.UnaryOp(ast.Not(), ast.Compare(left=test.left, ops=[ast.Eq()], comparators=test.comparators))
+        return test
+
+    class R(ast.NodeTransformer):
+        def visit_If(self, node):
+            self.generic_visit(node)
+            node.test = ast.copy_location(respell(node.test), node.test)
+            return node
+
+        def visit_While(self, node):
+            self.generic_visit(node)
+            node.test = ast.copy_location(respell(node.test), node.test)
+            return node
+
+        def visit_IfExp(self, node):
+            self.generic_visit(node)
+            node.test = ast.copy_location(respell(node.test), node.test)
+            return node
+    for pth, tree in srcs.items():
+        R().visit(tree)
+
+
 def _t_np_operators(srcs):
     """operators spelled as numpy functions where that is the same for every operand the code can see: a @ b -> np.matmul(a, b), np.eye(n) -> np.identity(n)"""
     import ast
@@ -680,7 +727,7 @@ def _t_accept_lists(srcs):
                         n.body[k:k] = ast.parse("if not isinstance(%s, np.ndarray):\n    %s = np.array(%s)\n" % (a.arg, a.arg, a.arg)).body
 
 
-TREE_TRANSFORMS = {"@coerce_params": _t_coerce_params, "@accept_lists": _t_accept_lists, "@early_exit": _t_early_exit, "@numpy_alias": _t_numpy_alias, "@kwargs_calls": _t_kwargs_calls, "@strip_docs_annotate": _t_strip_docs_annotate, "@logging": _t_logging, "@traced": _t_traced, "@kwonly": _t_kwonly, "@extra_param": _t_extra_param, "@try_reraise": _t_try_reraise, "@np_functions": _t_np_functions, "@small_idioms": _t_small_idioms, "@flip_comparisons": _t_flip_comparisons, "@else_after_exit": _t_else_after_exit, "@comp_to_loop": _t_comp_to_loop, "@np_operators": _t_np_operators, "@private_module": _t_private_module, "@swap_branches": _t_swap_branches, "@name_conditions": _t_name_conditions, "@ternary_to_if": _t_ternary_to_if,
+TREE_TRANSFORMS = {"@coerce_params": _t_coerce_params, "@accept_lists": _t_accept_lists, "@early_exit": _t_early_exit, "@numpy_alias": _t_numpy_alias, "@kwargs_calls": _t_kwargs_calls, "@strip_docs_annotate": _t_strip_docs_annotate, "@logging": _t_logging, "@traced": _t_traced, "@kwonly": _t_kwonly, "@extra_param": _t_extra_param, "@try_reraise": _t_try_reraise, "@np_functions": _t_np_functions, "@small_idioms": _t_small_idioms, "@flip_comparisons": _t_flip_comparisons, "@else_after_exit": _t_else_after_exit, "@comp_to_loop": _t_comp_to_loop, "@logic_spellings": _t_logic_spellings, "@np_operators": _t_np_operators, "@private_module": _t_private_module, "@swap_branches": _t_swap_branches, "@name_conditions": _t_name_conditions, "@ternary_to_if": _t_ternary_to_if,
                    "@shim": _t_shim}
 
 
